@@ -101,6 +101,10 @@ def main():
         mod, recs = gen_unit(unit, gendir)
         job = next(j for j in mod.JOBS if j['id'] == rec['job'])
         print('obligation:', rec['obligation'], '|', rec['description'], '| job', rec['job'])
+        if not job.get('native') and job.get('native_api'):
+            r = native.replay_api(job, os.path.join(BUILD, 'replay'), REPO)
+            print(r.get('cmd')); print(r.get('output')); print('status:', r['status'])
+            return 1 if r['status'] == 'reproduced' else 0
         if not job.get('native'):
             print('no native adapter for this harness; verifier inputs:', json.dumps(rec.get('inputs'))[:2000]); return 2
         r = native.replay(job, {'trace': rec.get('inputs'), 'desc': rec['description']}, gendir, os.path.join(BUILD, 'replay'), REPO)
